@@ -317,7 +317,7 @@ mutual
         simp only [restToks, List.cons_append, List.append_assoc]
 end
 
-theorem mapM_cons_some' {α β : Type} {f : α → Option β} {a : α} {as : List α} {rs : List β} (h : (a :: as).mapM f = some rs) :
+theorem mapM_cons_some {α β : Type} {f : α → Option β} {a : α} {as : List α} {rs : List β} (h : (a :: as).mapM f = some rs) :
     ∃ b bs, f a = some b ∧ as.mapM f = some bs ∧ rs = b :: bs := by
   rw [List.mapM_cons] at h
   cases hb : f a with
@@ -352,7 +352,7 @@ theorem meta_rows {kv : List (String × Raw)} {rows : List String}
   | nil => simp at h; subst h; exact ⟨[], rfl, rfl⟩
   | cons p kv ih =>
     obtain ⟨k, v⟩ := p
-    obtain ⟨r, rs, hr, hrs, rfl⟩ := mapM_cons_some' h
+    obtain ⟨r, rs, hr, hrs, rfl⟩ := mapM_cons_some h
     cases ht : scalarText v with
     | none => rw [ht] at hr; simp at hr
     | some t =>
@@ -574,7 +574,7 @@ def rowTexts (c : PCmd) (as : List Arg) : Option (List String) :=
 theorem rowTexts_cons {c : PCmd} {a : Arg} {as : List Arg} {rows : List String} (h : rowTexts c (a :: as) = some rows) :
     ∃ t rs, serializeArgument (argIsRes c a) a = some t ∧ rowTexts c as = some rs ∧ rows = (a.name ++ " = " ++ t) :: rs := by
   unfold rowTexts at h ⊢
-  obtain ⟨r, rs, hr, hrs, rfl⟩ := mapM_cons_some' h
+  obtain ⟨r, rs, hr, hrs, rfl⟩ := mapM_cons_some h
   cases ht : serializeArgument (argIsRes c a) a with
   | none => rw [ht] at hr; simp at hr
   | some t =>
@@ -721,20 +721,6 @@ theorem prog_chars (t : String) (ts : List String) : ("\n".intercalate (t :: ts)
     rw [String.intercalate_cons_cons]
     simp only [String.toList_append, List.append_assoc, ih b]
     simp [moreCmdChars]
-
-theorem mapM_cons_some {α β : Type} {f : α → Option β} {a : α} {as : List α} {rs : List β} (h : (a :: as).mapM f = some rs) :
-    ∃ b bs, f a = some b ∧ as.mapM f = some bs ∧ rs = b :: bs := by
-  rw [List.mapM_cons] at h
-  cases hb : f a with
-  | none => rw [hb] at h; simp at h
-  | some b =>
-    rw [hb] at h
-    cases hbs : as.mapM f with
-    | none => rw [hbs] at h; simp at h
-    | some bs =>
-      rw [hbs] at h
-      simp only [Option.bind_eq_bind, Option.bind_some, Option.pure_def, Option.some.injEq] at h
-      exact ⟨b, bs, rfl, rfl, h.symm⟩
 
 theorem progSeg : ∀ (cs : List PCmd) (c : PCmd), (∀ d ∈ c :: cs, CmdCovered d) → ∀ (t : String) (ts : List String),
     serializeCommand c = some t → cs.mapM serializeCommand = some ts → ∀ L,
